@@ -6,7 +6,9 @@ read through public attributes only (`num_proposals`, `num_feedbacks`,
 `population` + `get_fitness`, `generator`), the de-duplication memory is
 observed behaviourally (which later proposals are de-duplicated / which
 rewards `auto_reward_fn` is handed), history-determined algorithms must go on
-with identical proposals.
+with identical proposals. The history reaches the fresh instance in a rotating
+form (list, iterators, ...) and delivery (one recover() call, or 2..4
+consecutive pieces with one call each, see DELIVERIES).
 """
 import collections
 import os
@@ -1054,6 +1056,7 @@ def setup(ctx):
   ctx.notes['configurations'] = [c.name for c in CONFIGS]
   ctx.notes['spaces'] = [s.name for s in spaces]
   ctx.notes['history_forms'] = [f[0] for f in HISTORY_FORMS]
+  ctx.notes['deliveries'] = list(DELIVERIES)
   ctx.notes['cases_total'] = len(table)
   ctx.notes['configuration_x_space'] = len({(a, b) for a, b, _ in table})
 
